@@ -370,6 +370,25 @@ func goCanon(a any) string {
 
 var errProbe = errors.New("probe failure")
 
+// host errors come in every shape a Go error can have: pointer, string-typed, struct-valued
+type strErr string
+
+func (e strErr) Error() string { return string(e) }
+
+type valueErr struct{ msg string }
+
+func (e valueErr) Error() string { return e.msg }
+
+func hostError(k int) error {
+	switch k % 3 {
+	case 1:
+		return strErr("injected failure (string-typed error)")
+	case 2:
+		return valueErr{"injected failure (struct-valued error)"}
+	}
+	return errors.New("injected command failure")
+}
+
 func (h *Host) register() {
 	if h.spec.Probes {
 		must := func(err error) {
@@ -389,7 +408,7 @@ func (h *Host) register() {
 		})
 		must(h.dr.ConvertAndAddFunction("pv", func() { h.call("fn", "pv") }))
 		must(h.dr.ConvertAndAddFunction("enter", func(n string) { h.call("fn", "enter", n) }))
-		must(h.dr.ConvertAndAddFunction("pfail", func(x float64) (float64, error) { h.call("fn", "pfail", x); return 0, errProbe }))
+		must(h.dr.ConvertAndAddFunction("pfail", func(x float64) (float64, error) { h.call("fn", "pfail", x); return 0, hostError(int(x)) }))
 	}
 	for _, hs := range h.spec.Handlers {
 		h.registerHandler(hs)
@@ -473,9 +492,9 @@ func (h *Host) newInv(name string, args []string) *Inv {
 	return inv
 }
 
-func schedErr(s Sched) error {
+func schedErrN(s Sched, k int) error {
 	if s.Err {
-		return errors.New("injected command failure")
+		return hostError(k)
 	}
 	return nil
 }
@@ -499,7 +518,7 @@ func (h *Host) registerHandler(hs HandlerSpec) {
 			inv.Sched.Immediate = true
 			inv.released = true
 			ch := make(chan error, 1)
-			ch <- schedErr(inv.Sched)
+			ch <- schedErrN(inv.Sched, inv.Index)
 			return ch
 		})
 	case "raw_buffered":
@@ -508,7 +527,7 @@ func (h *Host) registerHandler(hs HandlerSpec) {
 			inv.ch = make(chan error, 1)
 			if inv.Sched.Immediate {
 				inv.released = true
-				inv.ch <- schedErr(inv.Sched)
+				inv.ch <- schedErrN(inv.Sched, inv.Index)
 			}
 			return inv.ch
 		})
@@ -519,7 +538,7 @@ func (h *Host) registerHandler(hs HandlerSpec) {
 			if inv.Sched.Immediate {
 				if h.freeRunning {
 					inv.released = true
-					inv.gate <- schedErr(inv.Sched)
+					inv.gate <- schedErrN(inv.Sched, inv.Index)
 				} else {
 					inv.auto = true
 				}
@@ -588,7 +607,7 @@ func (h *Host) registerHandler(hs HandlerSpec) {
 				var res error
 				if inv.Sched.Immediate && h.freeRunning {
 					inv.released = true
-					res = schedErr(inv.Sched)
+					res = schedErrN(inv.Sched, inv.Index)
 				} else {
 					inv.auto = inv.Sched.Immediate
 					select {
@@ -605,7 +624,7 @@ func (h *Host) registerHandler(hs HandlerSpec) {
 				inv.ch = make(chan error, 1)
 				if inv.Sched.Immediate {
 					inv.released = true
-					inv.ch <- schedErr(inv.Sched)
+					inv.ch <- schedErrN(inv.Sched, inv.Index)
 				}
 				if hs.Shape == "conv_rochan" {
 					var ro <-chan error = inv.ch
@@ -632,7 +651,7 @@ func (h *Host) Release(i int, failed bool) bool {
 	inv.released = true
 	var res error
 	if failed {
-		res = errors.New("injected command failure")
+		res = hostError(i)
 	}
 	switch {
 	case inv.ch != nil:
